@@ -12,6 +12,7 @@ pub mod c06;
 pub mod c05;
 pub mod c14;
 pub mod c08;
+pub mod c16;
 pub mod c18;
 
 pub fn lookup(id: &str) -> Option<&'static dyn Prop> {
@@ -29,6 +30,7 @@ pub fn lookup(id: &str) -> Option<&'static dyn Prop> {
         "C05" => Some(&c05::C05),
         "C14" => Some(&c14::C14),
         "C08" => Some(&c08::C08),
+        "C16" => Some(&c16::C16),
         "C18" => Some(&c18::C18),
         _ => None,
     }
